@@ -9,12 +9,12 @@ from __future__ import annotations
 import itertools
 import warnings
 
-from .core import Suite, cN, cbool, clist, ctuple
+from .core import Suite, cN, cbool, clist, copt, cstr, ctuple
 from .terms import GRAPH_POOL, TERM_ID, TERM_POOL, rdflib, tkey
 
 warnings.filterwarnings("ignore", category=DeprecationWarning)
 warnings.filterwarnings("ignore", category=UserWarning)
-from rdflib import BNode, Dataset, URIRef  # noqa: E402
+from rdflib import BNode, Dataset, Literal, URIRef  # noqa: E402
 from rdflib.graph import DATASET_DEFAULT_GRAPH_ID  # noqa: E402
 from rdflib.namespace import RDF, XSD  # noqa: E402
 
@@ -22,11 +22,12 @@ XSD_STRING = str.__str__(XSD.string)
 
 TRUSTED = [
     "Coq 8.16.1 kernel incl. vm_compute; no axioms (every theorem of coq/Props/C06.v is closed)",
-    "the hand-written model coq/Routing/Model.v is tied to rdflib only by this differential check",
-    "harness numbering of terms/graph names (structural, never rdflib __eq__/__hash__) and the reading of the "
-    "resulting Dataset through Dataset.quads()",
-    "the text layers of the six syntaxes (term spelling, Turtle/XML/JSON structure) are exercised by the runs "
-    "but not modelled",
+    "the hand-written models coq/Routing/{Model,Text,HextText,TrixTree}.v and C03's coq/Codec/{Model,Hext}.v (term spelling, "
+    "readline) are tied to rdflib only by the differential suites of this file (routing, text, hextrows, trixtree)",
+    "harness numbering/spelling of terms (structural, never rdflib __eq__/__hash__), reading of the resulting Dataset through "
+    "Dataset.quads(), recovery of document labels through bnode_context (N-Quads) / TriXHandler.bnode (TriX)",
+    "not modelled, crossed by the runs only: the TriG/Turtle and JSON-LD text layers; for TriX the XML text (written by "
+    "XMLWriter, read back with xml.etree and handed to TriXHandler as SAX events); for HexTuples the JSON text of a row (CPython json)",
 ]
 ASSUMPTIONS = [
     "BNode() mints names that never collide with a label of the document (model: fresh ids above every id of the document)",
@@ -35,13 +36,19 @@ ASSUMPTIONS = [
     "embedding drops blank-node cycles (from_graph only starts at IRIs and unreferenced blank nodes) - a text-layer defect in "
     "the domain of C03, outside the routing model",
     "Memory store, default_union=False",
+    "text level: terms are those rdflib accepts when writing N-Triples (valid IRIs with a scheme, legal labels and language tags, "
+    "no lone surrogates); literals use no datatype whose lexical form rdflib normalises (C09's domain); RDF Patch prefix rows "
+    "(PA/PD) are not modelled and not generated; header ids contain no line break",
+    "TriX tree suite: literals contain no character XML 1.0 cannot carry and no CR (XML end-of-line normalisation)",
 ]
 RULE = ("a case is (format, dataset[, target dataset]); datasets have 0-4 named graphs out of IRI names, blank-node "
         "names, a name equal to a subject IRI and a name equal to a blank node used in triples, 1-5 triples over a tiny "
         "vocabulary plus (45% of the cases) one or two well-formed RDF collections of length 1-3 each inside one graph, "
         "vocabulary (falsy literals included) spread over the graphs so that triples and blank nodes are shared; "
         "55% of the cases carry serialisation options (document base, per-graph base, bound prefixes; graph names and terms "
-        "lie under the bases); distinct = distinct case content; non-trivial = at least one named graph holds a triple")
+        "lie under the bases); text/hextrows/trixtree suites: 0-4 quads over string pools with quotes, backslashes, line breaks, NBSP and "
+        "astral characters, IRI/blank-node graph labels, plus disturbed documents/trees for the readers (extra blanks, comments, CRLF, "
+        "missing dots, <_:label> forms, wrong operation codes, misplaced elements); distinct = distinct case content; non-trivial = at least one named graph holds a triple")
 
 # ------------------------------------------------------------------ numbering
 BKEY = {"b1": 8, "b2": 13, "urn:g:1": 103, "g4": 104, "g7": 107,  # blank-node label -> key; id = 2*key+1
@@ -201,7 +208,7 @@ class C06(Suite):
             "preprocess/serialize, TriXSerializer._writeGraph, jsonld Converter.convert, PatchSerializer.serialize/_diff/"
             "_patch_row; NQuadsParser.parseline, TrigSinkParser.graph, TriXHandler, jsonld Parser._key_to_graph, "
             "HextuplesParser._parse_hextuple, RDFPatchParser.add_or_remove_triple_or_quad")
-    quick_n = 2400
+    quick_n = 1200
     thorough_n = 20000
     timeout_s = 20.0
 
@@ -451,4 +458,636 @@ class C06(Suite):
                             yield {"fmt": fmt, "src": d, "tgt": EMPTY}
 
 
-SUITES = [C06()]
+# ====================================================================== text level (coq/Routing/Text.v)
+# terms cross the boundary as strings: node = ["I", iri] | ["B", label]; object = node | ["L", lex, lang|None, datatype|None];
+# text-level quad = {"s": node, "p": iri, "o": object, "g": node|None}
+T_IRIS = ["http://e/a", "http://e/b", "urn:g:1", "h:p", "http://e/a\u00a0b", "http://e/\u00e9#f", "http://e/%20x",
+          "http://e/g/1", "urn:x:\U0001F600"]
+T_PREDS = ["http://e/p", "http://e/q", "h:p"]
+T_LABELS = ["b1", "b2", "g4", "a.b", "x-1", "_x", "9", "urn:g:1"]
+T_LEX = ["", "x", 'a"b', "back\\slash", "line\nbreak", "cr\rx", "tab\there", "\u00e9\u20ac\U0001F600", "\\u0041", " . # <x>", "'\"\"\"",
+         "0", "trailing\\"]
+T_LANGS = ["en", "en-GB", "x-a1"]
+T_DTS = ["http://e/dt", "http://www.w3.org/2001/XMLSchema#string", "urn:dt:1"]
+
+
+def t_node(n):
+    return URIRef(n[1]) if n[0] == "I" else BNode(n[1])
+
+
+def t_obj(o):
+    if o[0] == "L":
+        return Literal(o[1], lang=o[2], datatype=None if o[3] is None else URIRef(o[3]))
+    return t_node(o)
+
+
+def t_build(qs):
+    ds = Dataset()
+    for q in qs:
+        t = (t_node(q["s"]), URIRef(q["p"]), t_obj(q["o"]))
+        if q["g"] is None:
+            ds.add(t)
+        else:
+            ds.add(t + (t_node(q["g"]),))
+    return ds
+
+
+def t_term_back(t, inv):
+    if isinstance(t, BNode):
+        return ["B", inv.get(str.__str__(t), str.__str__(t))]
+    if isinstance(t, Literal):
+        return ["L", str.__str__(t), None if t.language is None else str.__str__(t.language),
+                None if t.datatype is None else str.__str__(t.datatype)]
+    return ["I", str.__str__(t)]
+
+
+def t_content(ds, inv=None):
+    inv = inv or {}
+    out = []
+    for s, p, o, g in ds.quads((None, None, None, None)):
+        if g is None or tkey(g) == tkey(DATASET_DEFAULT_GRAPH_ID):
+            gg = None
+        else:
+            gg = t_term_back(g, inv)
+        out.append({"s": t_term_back(s, inv), "p": str.__str__(p), "o": t_term_back(o, inv), "g": gg})
+    out.sort(key=repr)
+    return out
+
+
+def c_tnode(n):
+    return f"({'Iri' if n[0] == 'I' else 'Bnode'} {cstr(n[1])})"
+
+
+def c_tobj(o):
+    if o[0] == "L":
+        return f"(OLit {cstr(o[1])} {copt(o[2], cstr)} {copt(o[3], cstr)})"
+    return f"(ONode {c_tnode(o)})"
+
+
+def c_tquad(q):
+    return ctuple(ctuple(c_tnode(q["s"]), cstr(q["p"]), c_tobj(q["o"])), copt(q["g"], c_tnode))
+
+
+def c_lines(text):
+    """LF-terminated text -> the list of its lines (what split_lines computes for texts without CR)"""
+    return clist(cstr(line) for line in text)
+
+
+def split_like_model(text):
+    """str -> lines as coq/Codec split_lines does: CRLF, CR or LF end a line; an unterminated non-blank rest counts"""
+    out, cur, i = [], [], 0
+    while i < len(text):
+        c = text[i]
+        if c == "\n":
+            out.append("".join(cur)); cur = []
+        elif c == "\r":
+            out.append("".join(cur)); cur = []
+            if i + 1 < len(text) and text[i + 1] == "\n":
+                i += 1
+        else:
+            cur.append(c)
+        i += 1
+    if cur and not "".join(cur).isspace():
+        out.append("".join(cur))
+    return out
+
+
+class C06Text(Suite):
+    name = "text"
+    imports = "From RV Require Import Codec.Model Routing.Text."
+    case_ty = "tx_case"
+    obs_ty = "tx_obs"
+    model = "tx_model"
+    oeq = "tx_obs_eqb"
+    spec = "tx_spec"
+    corr = ("serializers/nquads.py _nq_row + NQuadsSerializer.serialize, parsers/nquads.py NQuadsParser.parseline/parse, "
+            "serializers/patch.py write_header/_patch_row/serialize(target=), parsers/patch.py parsepatch/operation/eat_op/"
+            "labeled_bnode/add_or_remove_triple_or_quad (term spelling and readline: C03's coq/Codec)")
+    quick_n = 300
+    thorough_n = 8000
+    timeout_s = 20.0
+
+    def g_node(self, rng, iri_only=False):
+        if iri_only or rng.random() < 0.65:
+            return ["I", rng.choice(T_IRIS)]
+        return ["B", rng.choice(T_LABELS)]
+
+    def g_obj(self, rng):
+        r = rng.random()
+        if r < 0.35:
+            return self.g_node(rng)
+        lex = rng.choice(T_LEX)
+        if r < 0.6:
+            return ["L", lex, None, None]
+        if r < 0.8:
+            return ["L", lex, rng.choice(T_LANGS), None]
+        return ["L", lex, None, rng.choice(T_DTS)]
+
+    def g_quads(self, rng, n=None):
+        n = rng.choice([0, 1, 1, 2, 3, 4]) if n is None else n
+        graphs = [None] + [self.g_node(rng) for _ in range(rng.choice([1, 2]))]
+        pool = [(self.g_node(rng), rng.choice(T_PREDS), self.g_obj(rng)) for _ in range(max(1, n))]
+        qs = []
+        for _ in range(n):
+            s, p, o = rng.choice(pool)
+            q = {"s": s, "p": p, "o": o, "g": rng.choice(graphs)}
+            if q not in qs:
+                qs.append(q)
+        return qs
+
+    def line_of(self, q, rng=None):
+        """a statement line, spelt by rdflib itself, optionally disturbed"""
+        s, o = t_node(q["s"]), t_obj(q["o"])
+        from rdflib.plugins.serializers.nt import _quoteLiteral
+        parts = [s.n3(), URIRef(q["p"]).n3(), _quoteLiteral(o) if isinstance(o, Literal) else o.n3()]
+        if q["g"] is not None:
+            parts.append(t_node(q["g"]).n3())
+        sep = " "
+        if rng is not None and rng.random() < 0.3:
+            sep = rng.choice(["  ", "\t", " \t "])
+        if rng is not None and rng.random() < 0.15:
+            sep = ""
+        line = sep.join(parts)
+        tail = " ."
+        if rng is not None:
+            tail = rng.choice([" .", ".", " . ", " . # comment", " .#c", "", " . x", " .."])
+        return line + tail
+
+    def g_raw_nq(self, rng):
+        lines = []
+        for q in self.g_quads(rng, rng.choice([1, 2, 3])):
+            line = self.line_of(q, rng if rng.random() < 0.5 else None)
+            r = rng.random()
+            if r < 0.1:
+                line = "  " + line
+            elif r < 0.15:
+                line = "# " + line
+            elif r < 0.2 and q["g"] is not None and q["g"][0] == "B":
+                line = line.replace(" _:" + q["g"][1], " <_:" + q["g"][1] + ">")
+            elif r < 0.25:
+                line = line.replace("<http://e/a>", "<http://e/\\u0061>")
+            elif r < 0.28:
+                line = line + ' "lit"'
+            lines.append(line)
+            if rng.random() < 0.15:
+                lines.append(rng.choice(["", "   ", "#", "\t"]))
+        eol = rng.choice(["\n", "\n", "\n", "\r\n", "\r"])
+        text = eol.join(lines)
+        if rng.random() < 0.7:
+            text += eol
+        if rng.random() < 0.1:
+            text += "   "
+        return text
+
+    def g_raw_patch(self, rng):
+        lines = []
+        if rng.random() < 0.5:
+            lines.append(rng.choice(["TX .", "TX", " TX .", "H id <urn:h:1> .", "TXX ."]))
+        for q in self.g_quads(rng, rng.choice([1, 2, 3])):
+            op = rng.choice(["A", "A", "D", "D", "AA", "DA", "PA", "X", "a", ""])
+            if op == "PA":
+                lines.append("PA e: <http://e/> .")
+                continue
+            body = self.line_of(q, rng if rng.random() < 0.3 else None)
+            if rng.random() < 0.25:
+                for k in ("s", "o", "g"):
+                    n = q[k]
+                    if n is not None and n[0] == "B" and rng.random() < 0.7:
+                        body = body.replace("_:" + n[1], "<_:" + n[1] + ">", 1)
+            sep = rng.choice([" ", " ", "  ", "\t", ""])
+            lines.append(op + sep + body)
+            if rng.random() < 0.1:
+                lines.append(rng.choice(["A", "A  # nothing", "D ", "# c", ""]))
+        if rng.random() < 0.5:
+            lines.append(rng.choice(["TC .", "TA .", "TC"]))
+        lines = [l for l in lines if not l.startswith("PA") or rng.random() < 0.0]
+        return "\n".join(lines) + ("\n" if rng.random() < 0.8 else "")
+
+    def gen(self, rng, i):
+        r = rng.random()
+        if r < 0.3:
+            return {"k": "nqw", "qs": self.g_quads(rng)}
+        if r < 0.5:
+            return {"k": "nqr", "text": self.g_raw_nq(rng)}
+        if r < 0.8:
+            a = self.g_quads(rng)
+            if rng.random() < 0.5:
+                b = [q for q in a if rng.random() < 0.6] + self.g_quads(rng, rng.choice([0, 1, 2]))
+            else:
+                b = self.g_quads(rng)
+            b = [q for i, q in enumerate(b) if q not in b[:i]]
+            return {"k": "ptw", "hid": rng.choice([None, None, "urn:h:1", ""]), "hprev": rng.choice([None, None, "urn:h:0"]),
+                    "a": a, "b": b}
+        return {"k": "ptr", "a": self.g_quads(rng), "text": self.g_raw_patch(rng)}
+
+    # ------------------------------------------------------------ implementation
+    def run_impl(self, case):
+        k = case["k"]
+        if k in ("nqw", "nqr"):
+            text = None
+            if k == "nqw":
+                try:
+                    text = t_build(case["qs"]).serialize(format="nquads")
+                except Exception:  # noqa: BLE001
+                    return {"k": k, "text": None, "back": None}
+            else:
+                text = case["text"]
+            try:
+                back = Dataset()
+                ctx = {}
+                back.parse(data=text, format="nquads", bnode_context=ctx)
+                inv = {str.__str__(v): lab for lab, v in ctx.items()}
+                res = t_content(back, inv)
+            except Exception:  # noqa: BLE001
+                res = None
+            return {"k": k, "text": None if k == "nqr" else split_like_model(text), "back": res}
+        a = t_build(case["a"])
+        if k == "ptw":
+            try:
+                kw = {}
+                if case["hid"] is not None:
+                    kw["header_id"] = case["hid"]
+                if case["hprev"] is not None:
+                    kw["header_prev"] = case["hprev"]
+                text = a.serialize(format="patch", target=t_build(case["b"]), **kw)
+            except Exception:  # noqa: BLE001
+                return {"k": k, "text": None, "back": None}
+        else:
+            text = case["text"]
+        try:
+            a.parse(data=text, format="patch")
+            res = t_content(a)
+        except Exception:  # noqa: BLE001
+            res = None
+        return {"k": k, "text": None if k == "ptr" else split_like_model(text), "back": res}
+
+    def on_timeout(self, case):
+        return {"k": case["k"], "text": None, "back": None}
+
+    # ------------------------------------------------------------ Coq text
+    def coq_case(self, case):
+        k = case["k"]
+        if k == "nqw":
+            return "NqWrite " + clist(c_tquad(q) for q in case["qs"])
+        if k == "nqr":
+            return "NqRead " + cstr(case["text"])
+        if k == "ptw":
+            return (f"PtWrite {copt(case['hid'], cstr)} {copt(case['hprev'], cstr)} "
+                    + clist(c_tquad(q) for q in case["a"]) + " " + clist(c_tquad(q) for q in case["b"]))
+        return "PtRead " + clist(c_tquad(q) for q in case["a"]) + " " + cstr(case["text"])
+
+    def coq_obs(self, obs):
+        k = obs["k"]
+        back = copt(obs["back"], lambda qs: clist(c_tquad(q) for q in qs))
+        text = copt(obs["text"], lambda ls: clist(cstr(l) for l in ls))
+        if k == "nqw":
+            return f"ObsNq {text} {back}"
+        if k == "nqr":
+            return f"ObsNqRead {back}"
+        if k == "ptw":
+            return f"ObsPt {text} {back}"
+        return f"ObsPtRead {back}"
+
+    def nontrivial(self, case, obs):
+        return bool(case.get("qs") or case.get("text") or case.get("a") or case.get("b"))
+
+    def features(self, case, obs):
+        f = {"kind_" + case["k"]: 1}
+        if obs.get("back") is None:
+            f["rejected_or_raised_" + case["k"]] = 1
+        qs = case.get("qs", []) + case.get("a", []) + case.get("b", [])
+        f["quads"] = len(qs)
+        f["bnode_graph_label"] = sum(1 for q in qs if q["g"] is not None and q["g"][0] == "B")
+        f["literal_with_escape"] = sum(1 for q in qs if q["o"][0] == "L" and any(c in q["o"][1] for c in '\\"\n\r'))
+        return f
+
+    def shrink(self, case):
+        for key in ("qs", "a", "b"):
+            if key in case:
+                for i in range(len(case[key])):
+                    yield dict(case, **{key: case[key][:i] + case[key][i + 1:]})
+        if "text" in case:
+            lines = case["text"].split("\n")
+            for i in range(len(lines)):
+                yield dict(case, text="\n".join(lines[:i] + lines[i + 1:]))
+
+
+# ====================================================================== HexTuples rows of datasets (coq/Routing/HextText.v)
+class C06Hext(Suite):
+    name = "hextrows"
+    imports = "From RV Require Import Codec.Model Routing.Text Routing.HextText."
+    case_ty = "hq_case"
+    obs_ty = "hq_obs"
+    model = "hq_model"
+    oeq = "hq_obs_eqb"
+    spec = "hq_spec"
+    corr = ("serializers/hext.py HextuplesSerializer.__init__/serialize/_hex_line/_context_str, parsers/hext.py "
+            "HextuplesParser.parse/_parse_hextuple (row = six strings; JSON text is CPython's)")
+    quick_n = 200
+    thorough_n = 4000
+
+    def gen(self, rng, i):
+        t = C06Text()
+        qs = t.g_quads(rng)
+        if rng.random() < 0.1 and qs:
+            qs[0] = dict(qs[0], s=["B", "a_:b"])
+        if rng.random() < 0.1 and qs:
+            qs[0] = dict(qs[0], g=["B", "a_:b"])
+        return {"qs": qs}
+
+    def run_impl(self, case):
+        import json as _json
+        try:
+            text = t_build(case["qs"]).serialize(format="hext")
+            rows = [_json.loads(line) for line in text.split("\n") if line]
+        except Exception:  # noqa: BLE001
+            return {"rows": [["error"]], "back": None}
+        try:
+            back = Dataset()
+            back.parse(data=text, format="hext")
+            res = t_content(back)
+        except Exception:  # noqa: BLE001
+            res = None
+        return {"rows": rows, "back": res}
+
+    def coq_case(self, case):
+        return "HqWrite " + clist(c_tquad(q) for q in case["qs"])
+
+    def coq_obs(self, obs):
+        return ("HqObs " + clist(clist(cstr(x) for x in r) for r in obs["rows"]) + " "
+                + copt(obs["back"], lambda qs: clist(c_tquad(q) for q in qs)))
+
+    def features(self, case, obs):
+        qs = case["qs"]
+        return {"quads": len(qs), "default_graph_quads": sum(1 for q in qs if q["g"] is None),
+                "bnode_graph_column": sum(1 for q in qs if q["g"] is not None and q["g"][0] == "B")}
+
+    def shrink(self, case):
+        for i in range(len(case["qs"])):
+            yield {"qs": case["qs"][:i] + case["qs"][i + 1:]}
+
+
+# ====================================================================== TriX as an XML tree (coq/Routing/TrixTree.v)
+TRIX_NS = "http://www.w3.org/2004/03/trix/trix-1/"
+XML_NS = "http://www.w3.org/XML/1998/namespace"
+X_LEX = ["", "x", 'a"b', "<&>", "line\nbreak", " pad ", "\u00e9\u20ac\U0001F600", "0"]
+X_IRIS = T_IRIS + ["http://e/n\u00a0", "\u2003s:x"]
+
+
+def x_of_term(t):
+    """rdflib term -> xterm as the TriX writer spells it (used for raw trees only)"""
+    if t[0] == "I":
+        return ["U", t[1]]
+    if t[0] == "B":
+        return ["I", t[1]]
+    if t[3]:
+        return ["Y", t[1], None, t[3]]
+    return ["P", t[1], t[2]]
+
+
+def c_xterm(x):
+    if x[0] == "U":
+        return f"(XUri {cstr(x[1])})"
+    if x[0] == "I":
+        return f"(XId {cstr(x[1])})"
+    if x[0] == "P":
+        return f"(XPlain {cstr(x[1])} {copt(x[2], cstr)})"
+    return f"(XTyped {cstr(x[1])} {copt(x[2], cstr)} {cstr(x[3])})"
+
+
+def c_xdoc(d):
+    out = []
+    for g in d:
+        ch = []
+        for c in g:
+            if c[0] == "N":
+                ch.append(f"TrixTree.GName {c_xterm(c[1])}")
+            else:
+                ch.append("GTriple " + clist(c_xterm(x) for x in c[1]))
+        out.append(clist(ch))
+    return clist(out)
+
+
+def tree_of_text(text):
+    import xml.etree.ElementTree as ET
+    root = ET.fromstring(text.encode("utf-8"))
+    doc = []
+
+    def xt(el):
+        tag = el.tag.split("}")[1]
+        txt = el.text or ""
+        if tag == "uri":
+            return ["U", txt]
+        if tag == "id":
+            return ["I", txt]
+        lang = el.attrib.get("{%s}lang" % XML_NS)
+        if tag == "plainLiteral":
+            return ["P", txt, lang]
+        return ["Y", txt, lang, el.attrib.get("datatype")]
+
+    for g in root:
+        ch = []
+        for c in g:
+            tag = c.tag.split("}")[1]
+            if tag == "triple":
+                ch.append(["T", [xt(x) for x in c]])
+            else:
+                ch.append(["N", xt(c)])
+        doc.append(ch)
+    return doc
+
+
+def drive_trix(doc):
+    """feed the tree to the real TriXHandler as SAX events; -> segments [[name|None, [[s,p,o]...]]...] or None"""
+    from xml.sax.xmlreader import AttributesNSImpl
+
+    from rdflib.plugins.parsers.trix import TriXHandler
+
+    class Loc:
+        def getSystemId(self): return "tree"
+        def getLineNumber(self): return 0
+        def getColumnNumber(self): return 0
+
+    ds = Dataset()
+    h = TriXHandler(ds.store)
+    h.setDocumentLocator(Loc())
+    no = AttributesNSImpl({}, {})
+
+    def el(name, attrs=no, text=None, children=()):
+        h.startElementNS((TRIX_NS, name), None, attrs)
+        if text is not None:
+            h.characters(text)
+        for c in children:
+            c()
+        h.endElementNS((TRIX_NS, name), None)
+
+    def term(x):
+        if x[0] == "U":
+            return lambda: el("uri", text=x[1])
+        if x[0] == "I":
+            return lambda: el("id", text=x[1])
+        a, q = {}, {}
+        if x[2] is not None:
+            a[(XML_NS, "lang")] = x[2]
+            q[(XML_NS, "lang")] = "xml:lang"
+        if x[0] == "Y":
+            a[(None, "datatype")] = x[3]
+            q[(None, "datatype")] = "datatype"
+        return lambda: el("plainLiteral" if x[0] == "P" else "typedLiteral", AttributesNSImpl(a, q), text=x[1])
+
+    def graph(g):
+        def run():
+            for c in g:
+                if c[0] == "N":
+                    term(c[1])()
+                else:
+                    el("triple", children=[term(x) for x in c[1]])
+        return lambda: el("graph", children=[run])
+
+    try:
+        h.startDocument()
+        el("TriX", children=[graph(g) for g in doc])
+    except Exception:  # noqa: BLE001
+        return None
+    inv = {str.__str__(v): lab for lab, v in h.bnode.items()}
+    segs = {}
+    for s, p, o, g in ds.quads((None, None, None, None)):
+        if g is None:
+            key = ("N", "I", str.__str__(DATASET_DEFAULT_GRAPH_ID))
+        elif isinstance(g, BNode) and str.__str__(g) not in inv:
+            key = ("A", str.__str__(g))
+        else:
+            n = t_term_back(g, inv)
+            key = ("N", n[0], n[1])
+        segs.setdefault(key, []).append([t_term_back(s, inv), t_term_back(p, inv), t_term_back(o, inv)])
+    out = []
+    for key in sorted(segs):
+        out.append([None if key[0] == "A" else [key[1], key[2]], sorted(segs[key], key=repr)])
+    return out
+
+
+class C06Trix(Suite):
+    name = "trixtree"
+    imports = "From RV Require Import Codec.Model Routing.Text Routing.TrixTree."
+    case_ty = "xt_case"
+    obs_ty = "xt_obs"
+    model = "xt_model"
+    oeq = "xt_obs_eqb"
+    spec = "xt_spec"
+    kf = "xt_kf"
+    kf_ids = {1: "F20"}
+    corr = ("serializers/trix.py TriXSerializer.serialize/_writeGraph/_writeTriple, parsers/trix.py TriXHandler."
+            "startElementNS/endElementNS/get_bnode (driven with SAX events built from the tree; XML text: the XML library's)")
+    quick_n = 300
+    thorough_n = 5000
+
+    def g_lit(self, rng):
+        lex = rng.choice(X_LEX)
+        r = rng.random()
+        if r < 0.4:
+            return ["L", lex, None, None]
+        if r < 0.7:
+            return ["L", lex, rng.choice(T_LANGS), None]
+        return ["L", lex, None, rng.choice(T_DTS)]
+
+    def g_term(self, rng, iris):
+        r = rng.random()
+        if r < 0.5:
+            return ["I", rng.choice(iris)]
+        if r < 0.8:
+            return ["B", rng.choice(["b1", "b2", "g4", "x-1"])]
+        return self.g_lit(rng)
+
+    def gen(self, rng, i):
+        iris = X_IRIS if rng.random() < 0.15 else T_IRIS
+        if rng.random() < 0.7:
+            names = [["I", "urn:x-rdflib:default"]]
+            for _ in range(rng.choice([0, 1, 2, 3])):
+                n = ["I", rng.choice(iris)] if rng.random() < 0.6 else ["B", rng.choice(["b1", "g4", "x-1"])]
+                if n not in names:
+                    names.append(n)
+            gs = []
+            for n in names:
+                ts = []
+                for _ in range(rng.choice([0, 1, 1, 2, 3])):
+                    s = ["I", rng.choice(iris)] if rng.random() < 0.6 else ["B", rng.choice(["b1", "b2", "g4"])]
+                    o = self.g_term(rng, iris)
+                    t = [s, rng.choice(T_PREDS), o]
+                    if t not in ts:
+                        ts.append(t)
+                gs.append({"n": n, "ts": ts})
+            return {"k": "xw", "gs": gs}
+        doc = []
+        for _ in range(rng.choice([1, 2, 3])):
+            g = []
+            for _ in range(rng.choice([0, 1, 2, 3, 4])):
+                r = rng.random()
+                if r < 0.3:
+                    name = rng.choice([["U", rng.choice(iris)], ["U", " urn:g:1\n"], ["I", "b1"], ["I", " g4 "], ["P", "x", None]])
+                    g.append(["N", name])
+                else:
+                    n = 3 if rng.random() < 0.85 else rng.choice([2, 4])
+                    ts = [x_of_term(self.g_term(rng, iris)) for _ in range(n)]
+                    if rng.random() < 0.1:
+                        ts[-1] = ["Y", "x", "en", "http://e/dt"]
+                    if rng.random() < 0.1:
+                        ts[-1] = ["P", "x", ""]
+                    g.append(["T", ts])
+            doc.append(g)
+        return {"k": "xr", "doc": doc}
+
+    def run_impl(self, case):
+        if case["k"] == "xw":
+            try:
+                ds = Dataset()
+                for g in case["gs"]:
+                    name = t_node(g["n"])
+                    gr = ds.default_graph if g["n"] == ["I", "urn:x-rdflib:default"] else ds.graph(name)
+                    for s, p, o in g["ts"]:
+                        gr.add((t_node(s), URIRef(p), t_obj(o)))
+                tree = tree_of_text(ds.serialize(format="trix"))
+            except Exception:  # noqa: BLE001
+                return {"tree": [[["N", ["U", "error"]]]], "back": None}
+            return {"tree": tree, "back": drive_trix(tree)}
+        return {"tree": None, "back": drive_trix(case["doc"])}
+
+    def coq_case(self, case):
+        if case["k"] == "xw":
+            gs = []
+            for g in case["gs"]:
+                ts = clist(ctuple(c_tnode(t[0]), cstr(t[1]), c_tobj(t[2])) for t in g["ts"])
+                gs.append(ctuple(c_tnode(g["n"]), ts))
+            return "XtWrite " + clist(gs)
+        return "XtRead " + c_xdoc(case["doc"])
+
+    def coq_obs(self, obs):
+        def seg(s):
+            ts = clist(ctuple(c_tobj(t[0]), c_tobj(t[1]), c_tobj(t[2])) for t in s[1])
+            return ctuple(copt(s[0], c_tnode), ts)
+        return ("XtObs " + copt(obs["tree"], c_xdoc) + " " + copt(obs["back"], lambda l: clist(seg(s) for s in l)))
+
+    def features(self, case, obs):
+        f = {"kind_" + case["k"]: 1}
+        if obs["back"] is None:
+            f["rejected_" + case["k"]] = 1
+        if case["k"] == "xw":
+            f["graphs"] = len(case["gs"])
+            f["bnode_named_graphs"] = sum(1 for g in case["gs"] if g["n"][0] == "B")
+            f["empty_graphs"] = sum(1 for g in case["gs"] if not g["ts"])
+        return f
+
+    def shrink(self, case):
+        if case["k"] == "xw":
+            gs = case["gs"]
+            for i in range(1, len(gs)):
+                yield dict(case, gs=gs[:i] + gs[i + 1:])
+            for i, g in enumerate(gs):
+                for j in range(len(g["ts"])):
+                    yield dict(case, gs=gs[:i] + [dict(g, ts=g["ts"][:j] + g["ts"][j + 1:])] + gs[i + 1:])
+        else:
+            d = case["doc"]
+            for i in range(len(d)):
+                yield dict(case, doc=d[:i] + d[i + 1:])
+
+
+SUITES = [C06(), C06Text(), C06Hext(), C06Trix()]
